@@ -6,6 +6,7 @@ import (
 	"bytes"
 	"encoding/binary"
 	"math/rand"
+	"time"
 
 	"github.com/cenkalti/rain/v2/internal/peersource"
 	"github.com/cenkalti/rain/v2/torrent"
@@ -46,7 +47,7 @@ func genAdmission(r *rand.Rand, tier string) Case {
 	if err != nil {
 		return Case{In: []int64{0}, Obs: []int64{-711}}
 	}
-	v.Settle(vQuiet)
+	v.BarrierPumping()
 	pe.Take()
 	snap := v.Snapshot()
 	in := []int64{l.PL, l.Total, int64(np), b2i(fast)}
@@ -60,7 +61,8 @@ func genAdmission(r *rand.Rand, tier string) Case {
 	for k := 0; k < nreq; k++ {
 		if r.Intn(3) == 0 {
 			_ = pe.Send(2, nil) // interested: the unchoker may unchoke us
-			v.Settle(vQuiet)
+			v.PumpEx(time.Second, torrent.ClsMsg)
+			v.BarrierPumping()
 			pe.Take()
 		}
 		st0 := v.Snapshot()
@@ -120,8 +122,20 @@ func genAdmission(r *rand.Rand, tier string) Case {
 		binary.BigEndian.PutUint32(payload[4:], uint32(begin))
 		binary.BigEndian.PutUint32(payload[8:], uint32(length))
 		_ = pe.Send(6, payload)
-		v.Settle(vQuiet)
+		v.PumpEx(time.Second, torrent.ClsMsg)
+		handled := v.BarrierPumping()
 		frames, cl := pe.Take()
+		// every served block is followed by one upload notification to the loop: take those still on their way
+		for _, f := range frames {
+			if f.ID == 7 && len(f.Payload) > 8 {
+				if handled > 0 {
+					handled--
+				} else {
+					v.PumpEx(time.Second, torrent.ClsMsg)
+				}
+			}
+		}
+		cl = cl || pe.Pe.Closed // the loop closed the peer: the EOF may not have reached the scripted end yet
 		dec := int64(0)
 		for _, f := range frames {
 			switch f.ID {
